@@ -259,8 +259,9 @@ class PL:  # literal pattern
 
 # ---------------------------------------------------------------- program AST
 class Rel:
-    def __init__(s, name, types, lattice=False, ds=None, init=None):
+    def __init__(s, name, types, lattice=False, ds=None, init=None, init_rows=None):
         s.name, s.types, s.lattice, s.ds, s.init = name, types, lattice, ds, init
+        s.init_rows = init_rows or []  # facts the initialiser expression contributes (reference semantics)
 
     @property
     def arity(s):
@@ -442,7 +443,13 @@ def items_rs(items, vk):
         elif isinstance(it, For):
             out.append("for %s in %s" % (it.p.rs(), it.e.rs(vk)))
         elif isinstance(it, Disj):
-            out.append("(" + " || ".join(items_rs(alt, vk) for alt in it.alts) + ")")
+            def alt_rs(alt):
+                txt = items_rs(alt, vk)
+                # an alternative ending in a condition is wrapped in its own group: `if c | q(..)` would parse as an expression
+                if alt and isinstance(alt[-1], (If, IfLet, Let, For)):
+                    return "(" + txt + ")"
+                return txt
+            out.append("(" + " | ".join(alt_rs(alt) for alt in it.alts) + ")")
         elif isinstance(it, MacroCall):
             out.append("%s!(%s)" % (it.name, ", ".join(arg_rs(a, vk) for a in it.args)))
         else:
@@ -489,20 +496,34 @@ def rel_rs(r):
 
 
 def program_rs(p, struct_decl=None):
-    lines = []
+    main, _src = program_parts(p, struct_decl)
+    return "\n   ".join(main)
+
+
+def program_parts(p, struct_decl=None):
+    """-> (lines of the ascent!{} body, lines of the ascent_source!{} block or None).
+    p.include = {"pos": "first"|"middle"|"last", "rels": [names], "rules": [indices]} moves the listed
+    declarations / rules into an ascent_source! block that is pulled in with include_source!."""
+    head = []
     for a in p.attrs:
-        lines.append("#![%s]" % a)
+        head.append("#![%s]" % a)
     if p.sig:
-        lines.append(p.sig)
+        head.append(p.sig)
     elif struct_decl:
-        lines.append(struct_decl)
+        head.append(struct_decl)
+    inc = getattr(p, "include", None)
+    body, src = [], []
     for r in p.rels:
-        lines.append(rel_rs(r))
+        (src if inc and r.name in inc["rels"] else body).append(rel_rs(r))
     for m in p.macros:
-        lines.append(macro_rs(m))
-    for r in p.rules:
-        lines.append(rule_rs(r))
-    return "\n   ".join(lines)
+        body.append(macro_rs(m))
+    for i, r in enumerate(p.rules):
+        (src if inc and i in inc["rules"] else body).append(rule_rs(r))
+    if inc:
+        line = "include_source!(srcs::part_%s);" % p.name
+        pos = {"first": 0, "middle": len(body) // 2, "last": len(body)}[inc["pos"]]
+        body = body[:pos] + [line] + body[pos:]
+    return head + body, (src if inc else None)
 
 
 # ---------------------------------------------------------------- reference desugaring (documented meaning)
@@ -826,6 +847,8 @@ def ref_aggregate(name, items):
         init, step, fin = (0, 0), (lambda s, it: (s[0] + x0(it), s[1] + 1)), (lambda s: [] if s[1] == 0 else [F64(Fraction(s[0], s[1]))])
     elif name == "not":
         init, step, fin = False, (lambda s, it: True), (lambda s: [] if s else [()])
+    elif name == "wsum":
+        init, step, fin = 0, (lambda s, it: s + 3 * it[0] + it[1]), (lambda s: [s])
     else:
         raise Unsupported("aggregator " + name)
     states = {init: True}
@@ -850,6 +873,9 @@ def reference_model(p, inputs, changed_check=None, max_rounds=64):
     st = RefState(p)
     for r, d in inputs.items():
         st.rel[r] = dict(d)
+    for rn, r in p.relmap.items():
+        for t in r.init_rows:
+            st.rel[rn][t] = True
     deps = rel_deps(p, rules)
     order = sccs(sorted(p.relmap), lambda v: sorted({d for d, _ in deps[v]}))
     stats = {"rounds": [], "rule_fire": {}}
@@ -880,7 +906,7 @@ def reference_model(p, inputs, changed_check=None, max_rounds=64):
                         new.rel[h.rel][key] = lat_join_in(new.rel[h.rel].get(key), cond, v)
                     else:
                         new.rel[h.rel][t] = Or_(new.rel[h.rel].get(t, False), cond)
-                eval_body(p, b, st, {}, True, emit)
+                eval_body(p, b, st, dict(getattr(p, "locals", {}) or {}), True, emit)
                 stats["rule_fire"][rule_ids[id(rb)]] = OrL(fire)
             if not recursive:
                 st = new
